@@ -151,7 +151,7 @@ add({"name": "SurfaceSelector_prev", "file": DS, "anchor": r"SurfaceSelector Sur
 add({"name": "check_sequence_fits", "file": "dfs/storage.cc",
      "anchor": r"bool check_sequence_fits\(DFS::drive_number i,\s*const std::vector<DriveConfig>::size_type to_do,\s*std::function<bool\(DFS::drive_number\)> occupied\)",
      "sig": "static bool check_sequence_fits(surface_t i, const size_t to_do, struct occ_fn *occupied)",
-     "rules": [(r"typedef const std::vector<DriveConfig> vec;", "/* typedef dropped */", 1),
+     "rules": [(r"typedef const std::vector<DriveConfig> vec;", "g_i0 = i;  /* typedef dropped; ghost: entry value of i */", 1),
                (r"vec::size_type", "size_t", 1),
                (r"occupied\(i\.opposite_surface\(\)\)", "occupied_call(occupied, SurfaceSelector_opposite_surface(i))", 1),
                (r"occupied\(i\)", "occupied_call(occupied, i)", 2),
@@ -333,7 +333,7 @@ add({"name": "noninterleaved_views", "file": "dfs/img_sdf.cc",
      "region_end": r"\}\s*\};\s*class InterleavedFile",
      "sig": "static void noninterleaved_views(const struct Geometry geometry)",
      "rules": [(r"DFS::sector_count_type", "sector_count_type", 2), GEO_MAKE + (1,),
-               (r"single_side_geom\.total_sectors\(\)", "Geometry_total_sectors(&single_side_geom)", 1),
+               (r"\b(\w+)\.total_sectors\(\)", r"Geometry_total_sectors(&\1)", ">=1"),
                (r"std::ostringstream os;.*?std::string desc = os\.str\(\);", "/* description text dropped */", 1),
                (r"FileView v\(block_access\(\), name, desc, single_side_geom,([^;]*)\);", r"view_add(\1);", 1),
                (r"DFS::sector_count\(", "sector_count(", 1),
@@ -346,8 +346,26 @@ add({"name": "interleaved_views", "file": "dfs/img_sdf.cc",
      "sig": "static void interleaved_views(const struct Geometry geometry)",
      "rules": [GEO_MAKE + (1,), (r"DFS::sector_count_type", "sector_count_type", 1),
                (r"single_side_geom\.sectors", "single_side_geom.sectors", 1),
-               (r"single_side_geom\.total_sectors\(\)", "Geometry_total_sectors(&single_side_geom)", 2),
+               (r"\b(\w+)\.total_sectors\(\)", r"Geometry_total_sectors(&\1)", ">=1"),
                (r"FileView side0\(block_access\(\), name, make_desc\(0\),\s*single_side_geom,([^;]*)\);", r"view_add(\1);", 1),
                (r"FileView side1\(block_access\(\), name, make_desc\(1\),\s*single_side_geom,([^;]*)\);", r"view_add(\1);", 1),
                (r"add_view\(side[01]\);", "/* add_view: recorded by view_add */", 2)],
      "dropped": ["view description lambda", "Geometry::encoding"]})
+
+# ---- storage.cc (C16): StorageConfiguration::connect_drives, both allocation policies --------------------------
+add({"name": "connect_drives", "file": "dfs/storage.cc",
+     "anchor": r"bool StorageConfiguration::connect_drives\(const std::vector<std::optional<DriveConfig>>& drives,\s*DriveAllocation how\)",
+     "sig": "static bool connect_drives(size_t drives_n, int how)",
+     "rules": [(r"const auto limit = std::numeric_limits<drive_number>::max\(\);", "const surface_t limit = UINT_MAX;", 1),
+               (r"DriveAllocation::PHYSICAL", "DriveAllocation_PHYSICAL", 1),
+               (r"auto occ = \[this\]\(DFS::drive_number i\) -> bool\s*\{\s*return is_drive_connected\(i\);\s*\};", "struct occ_fn *occ = &h_occ;  /* lambda: is_drive_connected(i) */", 1),
+               (r"for \(DFS::drive_number n = DFS::drive_number\(([^)]*)\);\s*n < limit;\s*n = n\.next\(\)\)", r"for (surface_t n = (surface_t)(\1); n < limit; n = SurfaceSelector_next(n)) PHYS_OUTER_CONTRACT", 1),
+               (r"drives\.size\(\)", "drives_n", 1),
+               (r"for \(auto d : drives\)(\s*\{\s*connect_internal)", r"for (size_t di = 0; di < drives_n; ++di) PHYS_CONNECT_CONTRACT\1", 1),
+               (r"for \(auto d : drives\)(\s*\{\s*for \(; n < limit)", r"for (size_t di = 0; di < drives_n; ++di) FIRST_OUTER_CONTRACT\1", 1),
+               (r"connect_internal\(n, d\);", "connect_internal_model(n, di);", 2),
+               (r"n = n\.next\(\)\.next\(\);", "n = SurfaceSelector_next(n); if (g_exc) return false; n = SurfaceSelector_next(n); if (g_exc) return false;  /* exception propagation */", 1),
+               (r"DFS::drive_number n\(([^)]*)\);", r"surface_t n = (surface_t)(\1);", 1),
+               (r"for \(; n < limit; n = n\.next\(\)\)", "for (; n < limit; n = SurfaceSelector_next(n)) FIRST_INNER_CONTRACT", 1),
+               (r"is_drive_connected\(n\)", "is_drive_connected_model(n)", 1)],
+     "dropped": []})
